@@ -103,6 +103,21 @@ CHECKS = {
             "guards are separate live values directly adjacent to the object; padding inside the object is not constrained",
             "runtime monitoring: guard-value (canary) monitor around every write + read-back oracle on the executed program",
             "cli", "4/C02"),
+    "C07": ("exploration",
+            "every corpus program and near-valid mutants of them (identifier swaps, := -> ::, type/literal/operator changes, deleted definitions, undefined "
+            "names) are compiled twice: by `probe pipeline` (library level with track_unsafe_to_compile on: error diagnostics, unsafe flag, whether a type "
+            "error names an expression) and by the real CLI (exit status, object file, internal errors, gcc link); the four claims of the statement are "
+            "checked on each input. Crashes of the front end are counted and left to C06.",
+            "the probe's driver mirrors main.rs; driver disagreements are inconclusive; linking ignores unresolved externs of snippets",
+            "runtime monitoring: cross-checked observations (hooked library run vs. CLI process) of each compilation",
+            "probe+cli", "4/C07"),
+    "C19": ("exploration",
+            "random and fixed-core signatures (0-8 parameters, scalars and flat structs up to 64 bytes covering INTEGER/SSE/MEMORY classes, register "
+            "exhaustion, sret) are exercised in both directions (capy calls extern C; C calls a capy function pointer) against C code compiled by the host "
+            "gcc at -O0 and -O2; both sides print the bytes of every parameter and return value, the generator's constants are the oracle.",
+            "x86-64 SysV only; 128-bit integers, nested structs, varargs and non-pointer optionals by value are outside the comparison",
+            "runtime monitoring: differential execution against the host C compiler with byte-exact value oracle",
+            "cli", "4/C19"),
 }
 
 NOT_YET = "check not built yet in this round (work in progress; see DESIGN.md section 4 for the plan)"
